@@ -66,6 +66,28 @@ int main(void)
 			free(mem);
 			continue;
 		}
+		/* crcseq <align> <len> <inits,comma> <hex>: ONE buffer of <len> bytes (at offset <align> from a 64-byte boundary, ending
+		   flush with its allocation) and ONE state variable are used for a sequence of calls; before call j the buffer is
+		   overwritten with the j-th <len>-byte slice of <hex> and the state variable is set to the j-th init.  Output: one
+		   hex4 per call.  The routine is a function of (state, bytes): nothing may carry over from one call to the next. */
+		if (cmd && !strcmp(cmd, "crcseq") && init && hx && sp) {
+			size_t al = strtoul(init, NULL, 10) & 63, blen = strtoul(hx, NULL, 10), tot, j = 0; char *ins = sp;
+			char *hx2 = strtok(NULL, " \n"); void *mem = NULL; uint8_t *all; uint16_t st;
+			if (!hx2 || posix_memalign(&mem, 64, al + blen ? al + blen : 1) != 0) { puts("ERR"); continue; }
+			all = unhex_alloc(hx2, &tot, 0);
+			buf = (uint8_t *) mem + al;
+			while (*ins && (j + 1) * blen <= tot) {
+				st = (uint16_t) strtoul(ins, &ins, 10);
+				if (*ins == ',') ++ins;
+				memcpy(buf, all + j * blen, blen);
+				lha_crc16_buf(&st, buf, blen);
+				printf(j ? " %04x" : "%04x", st);
+				++j;
+			}
+			printf("\n");
+			free(all); free(mem);
+			continue;
+		}
 		if (!cmd || !init || !hx || !sp) { puts("ERR"); continue; }
 		raw = unhex_alloc(hx, &len, 8);
 		off = caseno++ % 8;
